@@ -115,6 +115,9 @@ class CompMixin:
     for g in node.generators:
       it = self.eval(g.iter)
       d = self.domain_of(it, g)
+      if isinstance(g.iter, ast.Name) and d.indexed and isinstance(d.elem, V) and isinstance(
+          d.elem.sort, (S.Seq, S.SetOf, S.DictOf)):
+        d.elem = V(d.elem.sort, d.elem.t, origin=('elem', g.iter.id, d.var))
       vars_.append(d.var)
       conds.append(d.cond)
       doms.append(d)
@@ -216,7 +219,14 @@ class CompMixin:
       raise Unsupported('list comprehension of non-symbolic elements')
     ss = S.Seq(elt.sort)
     if not node.generators[0].ifs:
-      arr = z3.Lambda([d.var], elt.t)
+      # a named array with a pointwise definition (triggered on its selects); a lambda
+      # term here defeats E-matching when the list is later searched by index
+      arr = z3.FreshConst(z3.ArraySort(z3.IntSort(), elt.sort.z3()), 'comp')
+      bvars = [v for vs, _ in self.binders for v in vs]
+      if bvars:
+        arr = z3.Lambda([d.var], elt.t)   # nested inside another binder: keep it a term
+      else:
+        self.assume(z3.ForAll([d.var], z3.Select(arr, d.var) == elt.t, patterns=[z3.Select(arr, d.var)]))
       return V(ss, ss.mk(arr, d.length))
     # filtered: an order-preserving subsequence, axiomatised
     filt = z3.And(*conds[1:])
@@ -314,6 +324,9 @@ class CompMixin:
     b['iff'] = B('iff', lambda ex, a, k, n: V(S.BOOL, ex.truth(a[0]) == ex.truth(a[1])))
     b['every'] = B('every', lambda ex, a, k, n: ('every', ex.theory.sorts[a[0].s]))
     b['fresh'] = B('fresh', _b_fresh)
+    b['same'] = B('same', lambda ex, a, k, n: V(S.BOOL, a[0].t == ex.coerce(a[1], a[0].sort).t))
+    b['store'] = B('store', _b_store)
+    b['const_seq'] = B('const_seq', lambda ex, a, k, n: V(S.Seq(a[0].sort), S.Seq(a[0].sort).mk(z3.K(z3.IntSort(), a[0].t), z3.IntVal(0))))
     b['ite'] = B('ite', lambda ex, a, k, n: ex.ite(ex.truth(a[0]), a[1], a[2]))
     return b
 
@@ -337,6 +350,14 @@ def _b_len(ex, a, k, n):
     if isinstance(s, S.SetOf):
       for f in s.card_facts(v.t):
         ex.assume(f)
+      if z3.is_app(v.t) and v.t.decl().name().startswith('elems_'):
+        # A-LIB: len(set(q)) == len(q) exactly when q has no duplicates; never more
+        q = v.t.arg(0)
+        qs = S.Seq(s.elem)
+        i, j = z3.Ints('di dj')
+        dist = z3.ForAll([i, j], z3.Implies(z3.And(0 <= i, i < j, j < qs.len(q)), qs.at(q, i) != qs.at(q, j)))
+        ex.assume(s.card(v.t) <= qs.len(q))
+        ex.assume((s.card(v.t) == qs.len(q)) == dist)
       return V(S.INT, s.card(v.t))
     if isinstance(s, S.DictOf):
       ks = S.SetOf(s.key)
@@ -430,7 +451,7 @@ def _b_getattr(ex, a, k, n):
     am = ex.theory.attr_models.get((obj.sort.name, name.s))
     if am:
       return am(ex, obj)
-  if len(a) == 3 and isinstance(obj, V) and isinstance(obj.sort, S.Uninterp):
+  if len(a) == 3 and isinstance(obj, V):
     am = ex.theory.attr_models.get((obj.sort.name, 'getattr:' + name.s))
     if am:
       return am(ex, obj, a[2])
@@ -518,3 +539,10 @@ def _b_hash(ex, a, k, n):
       p = s.fresh('p')
       ex.theory.axioms.append(z3.ForAll([o, p], z3.Implies(s.eq(o, p), h(o) == h(p))))
   return V(S.INT, _HASH_FNS[s.name](v.t))
+
+
+def _b_store(ex, a, k, n):
+  """Ghost update of a sequence used as an unbounded map Int -> T (length is not meaningful)."""
+  q, i, v = a
+  s = q.sort
+  return V(s, s.mk(z3.Store(s.arr(q.t), ex.as_int(i), ex.coerce(v, s.elem).t), s.len(q.t)))
